@@ -1,6 +1,7 @@
 package main
 
 import (
+	"math"
 	"io"
 	"bufio"
 	"crypto/sha256"
@@ -130,7 +131,12 @@ func c07RecipeFormatted(kind int, seed int64, rec *visitRec) (f *jen.File, small
 				g.Id(fmt.Sprintf("F%d", i)).Int().Tag(m)
 			}
 		})
-		return f, smallest, "tags[" + strings.Join(ds, ",") + " keys]"
+		// values that compare equal but render differently (+0 and -0), in an order that depends on the recipe: what
+		// one of them renders as must not depend on which was rendered first in this process
+		zeros := []jen.Code{jen.Lit(0.0), jen.Lit(math.Copysign(0, -1)), jen.Lit(float32(0)), jen.Lit(float32(math.Copysign(0, -1))), jen.Lit(complex(0, math.Copysign(0, -1)))}
+		r.Shuffle(len(zeros), func(i, j int) { zeros[i], zeros[j] = zeros[j], zeros[i] })
+		f.Var().Id("zeros").Op("=").Index().Interface().Values(zeros...)
+		return f, smallest, "tags[" + strings.Join(ds, ",") + " keys]+zeros"
 	case 2: // ImportNames / Anon tables and the import block
 		f = jen.NewFile("p")
 		if r.Intn(3) == 0 {
@@ -351,7 +357,7 @@ func c07Case(r *mon.Run, idx int64, childHashes []map[int64]string) {
 }
 
 func runC07(r *mon.Run) {
-	r.SetRule("recipes (pure functions of a seed) rich in maps: Dicts whose keys/values hold qualified identifiers competing for aliases, nested Dicts, struct Tags of 2-8 keys, ImportNames/Anon tables with 2-30 imports, import scenarios, Dicts with render-identical keys; each recipe is built and rendered K=96 times (smallest map <=3 entries) or 32 times in-process and once in each of P child processes; non-trivial = smallest map has >=2 entries; distinct by recipe text")
+	r.SetRule("recipes (pure functions of a seed) rich in maps: Dicts whose keys/values hold qualified identifiers competing for aliases, nested Dicts, struct Tags of 2-8 keys, ImportNames/Anon tables with 2-30 imports, import scenarios, Dicts with render-identical keys; each recipe is built and rendered K=96 times (smallest map <=3 entries) or 32 times in-process and once in each of P child processes, each of which walks the recipes in an order of its own; non-trivial = smallest map has >=2 entries; distinct by recipe text")
 	r.Assume("map iteration orders cannot be forced from outside; the evidence reports the orders jennifer's own loops were observed to take (probe keys)")
 	n := r.Pick(300, 12000)
 	procs := r.Pick(4, 16)
@@ -367,7 +373,7 @@ func runC07(r *mon.Run) {
 		wg.Add(1)
 		go func(p int) {
 			defer wg.Done()
-			cmd := exec.Command(bin, "--child", "c07", strconv.FormatInt(r.Seed, 10), strconv.Itoa(n))
+			cmd := exec.Command(bin, "--child", "c07", strconv.FormatInt(r.Seed, 10), strconv.Itoa(n), strconv.Itoa(p))
 			cmd.Env = append(os.Environ(), "VERIF_CHILD=1")
 			out, err := cmd.Output()
 			if err != nil {
@@ -409,7 +415,18 @@ func c07Child(args []string) {
 	n, _ := strconv.Atoi(args[1])
 	w := bufio.NewWriter(os.Stdout)
 	defer w.Flush()
-	for i := 0; i < n; i++ {
+	// every child walks the recipes in an order of its own (child 0: as listed): what a recipe renders must not
+	// depend on what the process rendered before
+	order := make([]int, n)
+	for i := range order {
+		order[i] = i
+	}
+	if len(args) > 2 {
+		if p, _ := strconv.Atoi(args[2]); p > 0 {
+			order = rand.New(rand.NewSource(int64(p))).Perm(n)
+		}
+	}
+	for _, i := range order {
 		f, _, _ := c07Recipe(i%c07Kinds, mon.DeriveSeed(seed, "C07/recipe", int64(i)), nil)
 		fmt.Fprintf(w, "%d %s\n", i, hashFile(f))
 	}
